@@ -6,6 +6,7 @@ pub mod related;
 pub mod textops;
 pub mod store;
 pub mod data;
+pub mod serial;
 
 pub fn run(family: &str, opts: &Opts) -> Option<Report> {
     // "family@m<interval>s<0|1>" runs the family under a store configuration variant
@@ -34,6 +35,7 @@ fn run_base(family: &str, opts: &Opts) -> Option<Report> {
         "textops" => Some(textops::run(opts)),
         "store" => Some(store::run(opts)),
         "data" => Some(data::run(opts)),
+        "serial" => Some(serial::run(opts)),
         _ => None,
     }
 }
